@@ -1,5 +1,5 @@
 (* C17 - verdicts do not depend on the order of SAN entries or of extensions.  Statements only (proofs: Kernels/Order.v). *)
-From ZL Require Import Base.Bytes Kernels.Order.
+From ZL Require Import Base.Bytes Kernels.Order Kernels.Names Kernels.NamesFacts.
 From Coq Require Import Sorting.Permutation ZArith List.
 Open Scope Z_scope.
 
@@ -23,7 +23,31 @@ Theorem c17_find_ext_perm : forall (V : Type) o (es es' : list (list Z * V)),
   NoDup (map fst es) -> Permutation es es' -> find_ext o es = find_ext o es'.
 Proof. exact @find_ext_perm. Qed.
 
+(* fourteen lints that scan the common name and the SAN dNSNames, modelled in full (Kernels/Names.v): all fourteen
+   verdicts are unchanged by every permutation of the SAN dNSNames, whatever the common name and the scope flags *)
+Theorem c17_name_lints_perm : forall v d', Permutation (nv_dns v) d' -> all_name_lints (with_dns v d') = all_name_lints v.
+Proof. exact name_lints_perm. Qed.
+
+Theorem c17_name_lints_range : forall v s, In s (all_name_lints v) -> s = 1 \/ s = 3 \/ s = 4 \/ s = 6.
+Proof. exact name_lints_range. Qed.
+
+(* and the BR / RFC twins among them agree when the common name adds no name (C20's concern, same model) *)
+Theorem c17_name_twins_agree : forall v,
+  nv_tls v = true -> (forall n, In n (cn_if_name v) -> In n (nv_dns v)) ->
+  l_label_too_long v = l_rfc_label_too_long v /\ l_empty_label v = l_rfc_empty_label v.
+Proof. exact twins_agree. Qed.
+
 Print Assumptions c17_first_offender_perm.
 Print Assumptions c17_label_lints_perm.
 Print Assumptions c17_na_first_refuted.
 Print Assumptions c17_find_ext_perm.
+Print Assumptions c17_name_lints_perm.
+Print Assumptions c17_name_lints_range.
+Print Assumptions c17_name_twins_agree.
+
+(* non-vacuity: a view with a wildcard in the wrong place and a case-variant duplicate; the reversed SAN gives the same verdicts *)
+Example c17_names_example :
+  let v := mkNview true true true (s2b "example.com") false [s2b "a.*.example.com"; s2b "WWW.example.com"; s2b "www.example.com"] in
+  all_name_lints v = [3; 3; 3; 3; 6; 3; 3; 3; 4; 3; 3; 6; 3; 3] /\
+  all_name_lints (with_dns v (rev (nv_dns v))) = all_name_lints v.
+Proof. split; vm_compute; reflexivity. Qed.
